@@ -14,7 +14,7 @@ TRUSTED = SC.TRUSTED
 ASSUMPTIONS = SC.ASSUMPTIONS
 META = dict(technique='Coq proof (call-log invariant for every algorithm program and op sequence) + trace correspondence by vm_compute',
             level_text='Theorem: for EVERY algorithm program over the machine, every user function and every sequence of API operations (SetStrictRanges interleaved with Step), every real call lies inside the box in force when it was made. Tied to /repo by replaying generated scripts through the real solvers and the machine; the oracle checks every recorded cost argument, the best solution and generated initial points, also in the tight/clip modes that the machine does not model.',
-            level_note='Trusted: Coq kernel+VM; harness (generators, instrumentation of /repo from outside, printers, oracles). User cost/constraints/penalty, DE trial vectors, Nelder-Mead candidate points, argsort permutation and post-decoration populations are oracle inputs (recorded in the correspondence, universally quantified in theorems). Powell: line-search probes and the returned index are oracle inputs. Not in the machine model (oracle only): ensembles, tight/clip range modes. No NaN energies.',
+            level_note='Trusted: Coq kernel+VM; harness (generators, instrumentation of /repo from outside, printers, oracles). User cost/constraints/penalty, DE trial vectors, Nelder-Mead candidate points, argsort permutation and post-decoration populations are oracle inputs (recorded in the correspondence, universally quantified in theorems). Powell: line-search probes and the returned index are oracle inputs. Tight / clip=True range modes: the composite constraints.and_(constraints, bounds) is a recorded table. Not in the machine model (oracle only): ensembles, clip=False ranges. No NaN energies.',
             design_ref="5/C02")
 
 generate = SC.make_generate(**dict(allow_modes=True, push_out=0.3))
